@@ -108,6 +108,7 @@ pub fn no_effect_relation(rel: Relation, h: &History, st: &mut Stats) -> TestRes
     let control = History {
         tcp: h.tcp,
         remote: h.remote,
+        tick: h.tick,
         ops: h.ops.iter().enumerate().map(|(i, o)| if neutral.contains(&i) { Op::Advance(Adv::Zero) } else { o.clone() }).collect(),
     };
     let Some((ctl, _)) = run(&control, Some(&clock))? else {
